@@ -9,8 +9,14 @@
 //! Math. Comp. 48, 1987, <https://doi.org/10.1090/S0025-5718-1987-0866119-8>
 
 use std::cmp::{max, min};
+#[cfg(not(yamaquasi_verif))]
 use std::sync::atomic::{AtomicBool, AtomicUsize, Ordering};
+#[cfg(yamaquasi_verif)]
+use simsync::sync::atomic::{AtomicBool, AtomicUsize, Ordering};
+#[cfg(not(yamaquasi_verif))]
 use std::sync::RwLock;
+#[cfg(yamaquasi_verif)]
+use simsync::sync::RwLock;
 
 use bnum::cast::CastFrom;
 use rayon::prelude::*;
